@@ -223,7 +223,7 @@ def expect_action(rng, tok, feats):
 
 
 DETAIL_NAMES = ["foo", "foo-1", "traceback", "traceback-1", "traceback-2", "Failed expectation",
-                "Failed expectation-1", "twisted-log", "", "bar", "é-detail"]
+                "Failed expectation-1", "twisted-log", "", "bar", "é-detail", "load 50%", "{braces}"]
 
 
 def detail_action(rng, tok, feats):
@@ -266,7 +266,7 @@ def detail_action(rng, tok, feats):
 
 def fixture_spec(rng, tok, depth=0):
     spec = {"details": [], "setup": "ok", "cleanup": "ok"}
-    for name in rng.sample(["foo", "fx", "traceback", "log", "foo-1"], rng.randint(0, 2)):
+    for name in rng.sample(["foo", "fx", "traceback", "log", "foo-1", "load 50%", "{braces}"], rng.randint(0, 2)):
         spec["details"].append([name, tok("F").encode().hex()])
     r = rng.random()
     if r < 0.2:
@@ -279,7 +279,10 @@ def fixture_spec(rng, tok, depth=0):
         spec["live"] = True
     if spec["setup"] == "ok" and spec["cleanup"] == "ok" and rng.random() < 0.15:
         spec["cleanup_override"] = True
-    if depth < 1 and rng.random() < 0.25:
+    elif depth == 0 and spec["setup"] == "ok" and not spec.get("live") and rng.random() < 0.12:
+        # a fixture whose getDetails() hands out its live mapping, empty at setUp() and filled while the test uses it
+        spec["late_fill"] = True
+    if depth < 1 and rng.random() < 0.25 and not spec.get("late_fill"):     # (its getDetails is its own mapping only)
         spec["nested"] = fixture_spec(rng, tok, depth + 1)
     return spec
 
@@ -292,10 +295,12 @@ def fixture_action(rng, tok, bad_detail=False, old_style=False):
         spec["setup"] = "ok"
         spec["setup_override"] = rng.choice(["error", "fail", "kbd", "exit", "multi2"])
         spec.pop("nested", None)
+        spec.pop("late_fill", None)
     if bad_detail and rng.random() < 0.3:
         # only where testtools itself evaluates the detail (successful setUp -> gathering cleanup);
         # a failing _setUp would make the fixtures library evaluate it before its own clean-up
         spec["bad_detail"] = True
         spec["setup"] = "ok"
         spec.pop("nested", None)
+        spec.pop("late_fill", None)
     return ["fixture", tok("X"), spec]
